@@ -8,7 +8,7 @@ from harness import conv, corpus, tlc
 
 PROP = "C19"
 TRACE_CFG = "SPECIFICATION TSpec\nCONSTRAINT Accepted\nCHECK_DEADLOCK FALSE\n"
-EMPTY = {"present": False, "attrs": [], "has_label": False, "binds": [], "setvalue": [], "version": "", "ns_declared": False, "saveto": []}
+EMPTY = {"parse_ok": True, "custom_ns_declared": False, "present": False, "attrs": [], "has_label": False, "binds": [], "setvalue": [], "version": "", "ns_declared": False, "saveto": []}
 
 
 def _run(job):
@@ -26,7 +26,7 @@ def _run(job):
 
 def run(rep):
     rep.rule = ("TLC (Gen_Entities) enumerates all 16 presence combinations of (entity_id, create_if, update_if, label) x {literal, reference} "
-                "expressions x every subset of 4 save_to sites (top-level question, question in a group, question in a repeat, a group row), and "
+                "expressions x every subset of 5 save_to sites (top-level question, question in a group, question in a repeat, a group row, question in a group inside a repeat) x custom namespaces in settings or not, and "
                 "single departures (4 bad dataset-name classes, 5 bad property-name classes at 2 sites, two entity rows, an unknown column, "
                 "save_to without an entities sheet); each case is rendered and converted; TLC (Trace_Entities) decides with the decision table "
                 "of Entities.tla whether it must be rejected and, if declared, checks attributes, label child, binds (suffix and calculated "
